@@ -45,7 +45,7 @@ ANCHORS = ['pfhedge.nn.functional:bs_european_delta',
            'pfhedge.autogreek:theta',
            'pfhedge._utils.parse:parse_spot',
            'pfhedge._utils.parse:parse_volatility']
-DECIDING = ["greek.european", "greek.european_binary", "greek.american_binary", "greek.lookback", "autogreek.delta", "autogreek.gamma",
+DECIDING = ["module.forward_is_delta", "greek.european", "greek.european_binary", "greek.american_binary", "greek.lookback", "autogreek.delta", "autogreek.gamma",
             "autogreek.vega", "autogreek.theta", "autogreek.gamma_from_delta"]
 REQUIRED_BRANCHES = ["t!=1", "K!=1", "put", "american_binary.reached_spot_below", "via.module", "via.functional"]
 
@@ -304,7 +304,33 @@ def drv_autogreek(ctx, k, rng):
                     "S": S[:3], "sigma": sig[:3], "tau": tau[:3], "K": Kf})
 
 
+def drv_plumbing(ctx, k, rng):
+    """The delta a hedger obtains by feeding a pricing module its own `inputs()` features equals the module's delta on the derivative's state."""
+    from pfhedge.instruments import AmericanBinaryOption, BrownianStock, EuropeanBinaryOption, EuropeanOption, HestonStock, LookbackOption
+    from pfhedge.nn import BlackScholes, Hedger
+
+    stock = BrownianStock(sigma=float(rng.uniform(0.1, 0.6)), dtype=F64) if rng.random() < 0.6 else HestonStock(dtype=F64)
+    kind = pick(rng, ["european", "european_binary", "american_binary", "lookback"])
+    K = float(pick(rng, [1.0, 0.9, 1.3]))
+    call = True if kind in ("american_binary", "lookback") else bool(rng.random() < 0.5)
+    cls = {"european": EuropeanOption, "european_binary": EuropeanBinaryOption, "american_binary": AmericanBinaryOption, "lookback": LookbackOption}[kind]
+    d = cls(stock, call=call, strike=K, maturity=int(pick(rng, [3, 8])) / 250)
+    d.simulate(n_paths=3, init_state=((float(K * math.exp(rng.uniform(-0.1, 0.1))),) if isinstance(stock, BrownianStock) else None))
+    m = BlackScholes(d)
+    mon = "module.forward_is_delta"
+    ctx.seen(mon)
+    hedge = Hedger(m, m.inputs()).compute_hedge(d).squeeze(1)
+    direct = m.delta()
+    path = kind in ("american_binary", "lookback")
+    want_inputs = ["log_moneyness"] + (["max_log_moneyness"] if path else []) + ["time_to_maturity", "volatility"]
+    ok = list(m.inputs()) == want_inputs and hedge.shape == direct.shape and bool(torch.equal(hedge[:, :-1], direct[:, :-1]) or
+                                                                                 torch.allclose(hedge[:, :-1], direct[:, :-1], rtol=1e-12, atol=1e-14, equal_nan=True))
+    ctx.check(mon, ok, "forward_vs_delta", f"Hedger(BlackScholes({cls.__name__}), inputs()) does not reproduce the module's delta (inputs {list(m.inputs())})",
+              sig=(kind, call, type(stock).__name__), hedge=hedge[0, :4], delta=direct[0, :4], inputs=list(m.inputs()))
+
+
 DRIVERS = [
+    ("plumbing", 40, 1500, drv_plumbing),
     ("bs", 300, 20000, drv_bs),
     ("autogreek", 200, 10000, drv_autogreek),
 ]
